@@ -24,6 +24,8 @@ pub fn tok_bytes(tok: &str, e_choice: usize) -> Vec<u8> {
         "G" => vec![0x07],
         "S" => vec![0x1b],
         "Z" => vec![0xE9],
+        "Y" => vec![0xE8],
+        "NE" => b" (no-eol)".to_vec(),
         t if t.starts_with('#') => vec![t[1..].parse::<u16>().unwrap_or_else(|_| tool_error(&format!("bad byte token {t}"))) as u8],
         t => t.as_bytes().to_vec(),
     }
@@ -54,6 +56,7 @@ fn one(v: &Value, seed: u64, id: u64) -> Value {
         "regex" | "regex_anch" => vec![("default", format!("{expr} ({})", if alias { "re" } else { "regex" })), ("cram", format!("{expr} (re)"))],
         "glob" => vec![("default", format!("{expr} ({})", if alias { "gl" } else { "glob" })), ("cram", format!("{expr} (glob)"))],
         "cramglob" => vec![("cram", format!("{expr} (glob)"))],
+        "globz" => vec![("default", format!("{expr} (glob)"))],
         "escaped" => vec![("default", format!("{expr} ({})", if alias { "esc" } else { "escaped" }))],
         "escglob" => vec![("default", format!("{expr} (escaped) (glob)")), ("cram", format!("{expr} (esc) (glob)"))],
         "equal" => vec![("default", format!("{expr} ({})", if alias { "eq" } else { "equal" }))],
